@@ -104,7 +104,8 @@ func (pass *FlattenDisjunctions) flattenDisjunction(schema *ast.Schema, disjunct
 			if branch.IsStruct() {
 				innerTypeName = fmt.Sprintf("inner_branch_%d", innerI)
 			}
-			addBranch(innerTypeName, resolvedBranch)
+			// branches of another object: copy them, later passes rewrite types in place
+			addBranch(innerTypeName, resolvedBranch.DeepCopy())
 		}
 	}
 
